@@ -1,6 +1,6 @@
 (* Extraction of the executable model for the OCaml driver.  ExtrOcamlBasic only: bool, option,
    unit, list, prod, sumbool map to OCaml's; N, positive, nat stay Coq inductives. *)
 From Coq Require Extraction ExtrOcamlBasic.
-From BVA Require Import Base.Prelude Base.Result Model.Core Model.Run Spec.Prop.
+From BVA Require Import Base.Prelude Base.Result Model.Core Model.Run Spec.Prop Spec.CaseOk.
 Extraction Language OCaml.
-Extraction "../ocaml/model.ml" run_case decode_case decode_result corr_line result_eqb prop_case spec_show.
+Extraction "../ocaml/model.ml" run_case decode_case decode_result corr_line result_eqb prop_case spec_show case_okb.
